@@ -895,3 +895,127 @@ Proof.
   destruct HG as (G1 & G2 & G3). repeat split; assumption.
 Qed.
 End Loops.
+
+(* ---------------------------------------------------------------------------------------------- *)
+(* 10. from spv to the axis test of the checkers                                                   *)
+
+Lemma class_pos_strictify w a : class_pos (strictify w) a = rk w a.
+Proof.
+  induction w as [|x r IH]; [reflexivity|]. change (strictify (x :: r)) with ([x] :: strictify r).
+  rewrite class_pos_cons, IH. simpl. unfold memN. simpl. now rewrite orb_false_r.
+Qed.
+
+Lemma sp_axis_weak_strictify w O : sp_axis_weak (strictify w) O = true <-> spv w O.
+Proof.
+  unfold sp_axis_weak. rewrite sp_scan_ok_correct, spv_valley.
+  erewrite map_ext; [reflexivity|]. intros a. apply class_pos_strictify.
+Qed.
+
+Lemma rk_filter_lt (f : N -> bool) v a b : NoDup v -> In a v -> In b v -> f a = true -> f b = true ->
+  (rk (filter f v) a < rk (filter f v) b <-> rk v a < rk v b).
+Proof.
+  induction v as [|x r IH]; intros Hnd Ha Hb Fa Fb; [contradiction|].
+  inversion Hnd as [|? ? Hx Hr]; subst. simpl filter. simpl rk at 3 4.
+  destruct (N.eqb a x) eqn:Ea, (N.eqb b x) eqn:Eb.
+  - apply N.eqb_eq in Ea, Eb. subst. rewrite Fa. simpl. rewrite N.eqb_refl. lia.
+  - apply N.eqb_eq in Ea. subst. rewrite Fa. simpl. rewrite N.eqb_refl, Eb. lia.
+  - apply N.eqb_eq in Eb. subst. rewrite Fb. simpl. rewrite N.eqb_refl, Ea. lia.
+  - apply N.eqb_neq in Ea, Eb. destruct Ha as [->|Ha]; [congruence|]. destruct Hb as [->|Hb]; [congruence|].
+    specialize (IH Hr Ha Hb Fa Fb). destruct (f x); simpl.
+    + apply N.eqb_neq in Ea, Eb. rewrite Ea, Eb. lia.
+    + lia.
+Qed.
+
+Lemma spv_filter (f : N -> bool) v O : NoDup v -> incl O v -> (forall a, In a O -> f a = true) ->
+  (spv (filter f v) O <-> spv v O).
+Proof.
+  intros Hnd Hin Hf. unfold spv. split; intros H a b c Hs [H1 H2]; pose proof (sub3_in a b c O Hs) as (Ia & Ib & Ic).
+  - apply (H a b c Hs). split; apply rk_filter_lt; auto.
+  - apply (H a b c Hs). split; [apply (rk_filter_lt f v a b)|apply (rk_filter_lt f v c b)]; auto.
+Qed.
+
+(* the profile restricted to the axis' alternatives passes the axis test on the axis *)
+Lemma axis_test_restricted (f : N -> bool) votes O :
+  (forall v, In v votes -> NoDup v /\ incl O v /\ spv v O) -> (forall a, In a O -> f a = true) ->
+  sp_axis_profile (map strictify (map (filter f) votes)) O = true.
+Proof.
+  intros H Hf. unfold sp_axis_profile. rewrite map_map, forallb_forall. intros o Ho.
+  apply in_map_iff in Ho. destruct Ho as (v & <- & Hv). destruct (H v Hv) as (Hnd & Hin & Hsp).
+  apply sp_axis_weak_strictify. now apply spv_filter.
+Qed.
+
+Lemma filter_all_true {T} (f : T -> bool) l : (forall x, In x l -> f x = true) -> filter f l = l.
+Proof.
+  induction l as [|x l IH]; intros H; [reflexivity|]. simpl. rewrite (H x (or_introl eq_refl)). f_equal.
+  apply IH. intros y Hy. apply H. now right.
+Qed.
+
+Section Final.
+Variable pair_first : N -> N -> bool.
+Variable ext_order : list (list N) -> list (list N).
+Hypothesis Hext : forall l X, In X (ext_order l) -> In X l.
+
+(* general form: alts may be a subset of the alternatives of the votes (C18) *)
+Theorem longest_axis_sound alts votes : NoDup alts -> (forall v, In v votes -> NoDup v /\ incl alts v) ->
+  let r := longest_axis pair_first ext_order alts votes in
+  NoDup (fst r) /\ incl (fst r) alts /\
+  Permutation alts (fst r ++ snd r) /\
+  sp_axis_profile (map strictify (map (restrict_ranking (fst r)) votes)) (fst r) = true.
+Proof.
+  intros Hnd Hv r. destruct (longest_axis_good alts votes Hv pair_first ext_order Hext) as (G1 & G2 & G3 & G4).
+  fold r in G1, G2, G3, G4. clearbody r. split; [assumption|]. split; [assumption|]. split.
+  - rewrite G4.
+    assert (P : forall l, NoDup l -> Permutation l (filter (fun a => memN a (fst r)) l ++ filter (fun a => negb (memN a (fst r))) l)).
+    { induction l as [|x l IH]; intros Hl; [apply perm_nil|]. inversion Hl; subst. simpl. destruct (memN x (fst r)); simpl.
+      - apply perm_skip. now apply IH.
+      - apply Permutation_cons_app. now apply IH. }
+    eapply perm_trans; [apply (P alts Hnd)|]. apply Permutation_app_tail.
+    apply NoDup_Permutation; [now apply NoDup_filter|assumption|].
+    intros a. rewrite filter_In, memN_In. split; [tauto|]. intros Ha. split; [now apply G2|assumption].
+  - unfold restrict_ranking. apply axis_test_restricted.
+    + intros v Hin. destruct (Hv v Hin) as [N1 N2]. split; [assumption|]. split; [|now apply G3].
+      intros a Ha. apply N2. now apply G2.
+    + intros a Ha. now apply memN_In.
+Qed.
+
+(* k_alternative_deletion on a strict complete profile returns a certificate accepted by the verified checker *)
+Theorem elp_sound alts votes : NoDup alts -> (forall v, In v votes -> Permutation alts v) ->
+  let r := k_alternative_deletion pair_first ext_order alts votes in
+  cert_alt alts (map strictify votes) (length (snd r)) (fst r) (snd r) = true.
+Proof.
+  intros Hnd Hp r.
+  assert (Hv : forall v, In v votes -> NoDup v /\ incl alts v).
+  { intros v Hin. split; [eapply Permutation_NoDup; [apply Hp|]; eauto|]. intros a Ha. eapply Permutation_in; [apply Hp|]; eauto. }
+  destruct (longest_axis_good alts votes Hv pair_first ext_order Hext) as (G1 & G2 & G3 & G4).
+  unfold k_alternative_deletion in r. fold r in G1, G2, G3, G4. clearbody r.
+  set (O := fst r) in *. set (D := snd r) in *.
+  assert (HD : forall a, In a D <-> In a alts /\ ~ In a O).
+  { intros a. rewrite G4, filter_In, negb_true_iff, memN_false. reflexivity. }
+  assert (KO : keepN D O = O).
+  { apply filter_all_true. intros a Ha. apply negb_true_iff, memN_false. intros HaD. apply HD in HaD. tauto. }
+  unfold cert_alt. rewrite !andb_true_iff. split; [split; [split|]|].
+  - apply nodupN_correct. rewrite G4. now apply NoDup_filter.
+  - apply forallb_forall. intros a Ha. apply memN_In. now apply HD.
+  - apply Nat.eqb_refl.
+  - unfold spw_check_axis. rewrite KO. apply andb_true_iff. split.
+    + apply valid_axis_correct; [now apply keepN_NoDup|].
+      apply NoDup_Permutation; [now apply keepN_NoDup|assumption|].
+      intros a. rewrite keepN_In, HD. split.
+      * intros [Ha Hn]. destruct (in_dec N.eq_dec a O); tauto.
+      * intros Ha. split; [now apply G2|tauto].
+    + assert (E : delete_alts D (map strictify votes) = map strictify (map (filter (fun a => negb (memN a D))) votes)).
+      { unfold delete_alts. rewrite !map_map. apply map_ext. intros v. apply delete_order_strictify. }
+      rewrite E. apply axis_test_restricted.
+      * intros v Hin. destruct (Hv v Hin) as [N1 N2]. split; [assumption|]. split; [|now apply G3].
+        intros a Ha. apply N2. now apply G2.
+      * intros a Ha. apply negb_true_iff, memN_false. intros HaD. apply HD in HaD. tauto.
+Qed.
+
+Corollary elp_bound alts votes : NoDup alts -> (forall v, In v votes -> Permutation alts v) ->
+  min_alt_del alts (map strictify votes) <= length (snd (k_alternative_deletion pair_first ext_order alts votes)).
+Proof.
+  intros Hnd Hp. eapply cert_alt_valid_bound; [assumption| |apply elp_sound; assumption].
+  apply Forall_forall. intros o Ho. apply in_map_iff in Ho. destruct Ho as (v & <- & Hv).
+  apply complete_on_strictify; auto.
+Qed.
+End Final.
